@@ -124,7 +124,7 @@ func init() {
 		ruleMemberLoops(func(k string) bool { return k == "clip.line" || k == "clip.MultiLineString" || k == "clip.MultiPoint" }, 2, 1),
 		ruleRegionCodes(clipRegionFuncs, true),
 		ruleOpenFlagFlow,
-		ruleCompose(concatSpecs(clipLineMemberSpecs, clipVertexSpecs, boundSpecsOf("MultiPoint", "LineString", "MultiLineString")), 17),
+		ruleCompose(concatSpecs(clipLineMemberSpecs, clipVertexSpecs, clipIntersectSpecs, boundSpecsOf("MultiPoint", "LineString", "MultiLineString")), 25),
 	)
 
 	register("C08",
@@ -136,7 +136,7 @@ func init() {
 		ruleRegionCodes(clipRegionFuncs, true),
 		ruleLoopShapes(inPkgs("clip."), 1, 5),
 		ruleBoxIntersection,
-		ruleCompose(concatSpecs(clipRingMemberSpecs, clipRingVertexSpecs, boundSpecsOf("Ring", "Polygon", "MultiPolygon", "Collection")), 18),
+		ruleCompose(concatSpecs(clipRingMemberSpecs, clipRingVertexSpecs, clipIntersectSpecs, boundSpecsOf("Ring", "Polygon", "MultiPolygon", "Collection")), 26),
 	)
 
 	register("C09",
